@@ -74,7 +74,15 @@ def _make_case(rng, i):
     if kind == 2:
         return gen_planted.gen(rng, two_bands=True)
     if kind in (3, 4):
-        return gen_planted.gen_noisy(rng)
+        case = gen_planted.gen_noisy(rng)
+        if kind == 4 and i % 12 == 4:
+            # a logger that reports tenths of a millimetre, on a grid of tenths: readings sit exactly
+            # on levels whose quotient level / step is not exact in binary
+            case = dict(case, z=[[t, round(v, 1)] for t, v in case['z']], grid_step=rng.choice([0.1, 0.2, 0.3]))
+            zs = [v for _, v in case['z']]
+            if (max(zs) - min(zs)) / case['grid_step'] > 2500:
+                case['grid_step'] = 0.5
+        return case
     case = gen_series.gen(rng, force='long', dyadic=True)
     zs = [v for _, v in case['z']]
     # keep the number of grid levels moderate: these records can span metres
